@@ -206,6 +206,11 @@ func (c *Channel) ReadUntilFuzzy(ctx context.Context, b []byte) ([]byte, error) 
 // ReadUntilExplicit reads bytes out of the channel Q object until the bytes b are seen in the
 // output. Once the bytes are seen all read bytes are returned.
 func (c *Channel) ReadUntilExplicit(ctx context.Context, b []byte) ([]byte, error) {
+	if len(b) == 0 {
+		// nothing was typed, so there is no echo to wait for (same as ReadUntilFuzzy)
+		return nil, nil
+	}
+
 	var rb []byte
 
 	for {
